@@ -1,10 +1,10 @@
 #!/bin/bash
 # usage: tryw.sh <check-property> <patch.diff> [budget_s] [workers]
 # applies a seeded change in a scratch worktree of /repo HEAD and runs the property's check against it
-# (VERIF_REPO). /repo is not touched. Leaves the replay files in /tmp/verif-tryw-out/replays for inspection
-# together with the worktree (/tmp/verif-tryw-wt) until the next call.
+# (VERIF_REPO). /repo is not touched. Leaves the replay files in /tmp/verif-tryw-out-<tag>/replays for inspection
+# together with the worktree (/tmp/verif-tryw-wt-<tag>, TRYW_TAG, default a) until the next call.
 P=$1; PATCH=$2; B=${3:-40}; NW=${4:-16}
-W=/tmp/verif-tryw-wt; O=/tmp/verif-tryw-out
+T=${TRYW_TAG:-a}; W=/tmp/verif-tryw-wt-$T; O=/tmp/verif-tryw-out-$T
 git -C /repo worktree remove --force $W 2>/dev/null; rm -rf $W $O
 git -C /repo worktree add -q --detach $W HEAD || exit 2
 git -C $W apply "$PATCH" || { echo "patch does not apply"; exit 2; }
